@@ -1,7 +1,9 @@
 (* Search.v — model and specification of the two by-name lookup helpers of the public API
    (cat.c:2400 cat_search_command_by_name, cat.c:2434 cat_search_variable_by_name): plain strcmp
-   scans in registration order.  (cat_search_command_group_by_name is not modelled: group names
-   are not part of the model's descriptor.)  Names are NUL-free byte lists, so strcmp = equality. *)
+   scans in registration order, and of cat.c:2417 cat_search_command_group_by_name (the same scan
+   over the optional group names; these are not part of the model's descriptor, which needs them
+   nowhere else, so the function takes the list of names).  Names are NUL-free byte lists, so
+   strcmp = equality. *)
 From Coq Require Import List NArith Bool Arith Lia.
 From CatV Require Import Bytes Defs Spec.
 Import ListNotations.
@@ -19,6 +21,11 @@ Definition search_command_by_name (D : desc) (name : list N) : option nat :=
 (* index of the first variable of c whose (optional) name is exactly `name` *)
 Definition search_variable_by_name (c : cmd) (name : list N) : option nat :=
   find_index (fun v => match v_name v with Some nm => list_eqb nm name | None => false end) (c_vars c) 0.
+
+(* index of the first group whose (optional) name is exactly `name`; gnames = the name of each
+   registered group in registration order, None = the group has no name (NULL) *)
+Definition search_group_by_name (gnames : list (option (list N))) (name : list N) : option nat :=
+  find_index (fun g => match g with Some nm => list_eqb nm name | None => false end) gnames 0.
 
 (* ---- specification: first exact match, None iff there is none ---- *)
 Lemma list_eqb_eq : forall a b, list_eqb a b = true <-> a = b.
@@ -64,3 +71,22 @@ Proof.
   - intros c Hc Heq. specialize (H c Hc). apply list_eqb_eq in Heq. cbn in H. congruence.
 Qed.
 Print Assumptions search_command_by_name_spec.
+
+Theorem search_group_by_name_spec : forall gnames name,
+  match search_group_by_name gnames name with
+  | Some j => nth_error gnames j = Some (Some name) /\
+              forall k, k < j -> nth_error gnames k <> Some (Some name)
+  | None => ~ In (Some name) gnames
+  end.
+Proof.
+  intros gnames name. unfold search_group_by_name.
+  pose proof (find_index_spec _ (fun g => match g with Some nm => list_eqb nm name | None => false end) gnames 0) as H.
+  destruct (find_index _ gnames 0) as [j|].
+  - destruct H as [_ [g [Hg [Hp Hb]]]]. rewrite Nat.sub_0_r in *. destruct g as [nm|]; [|discriminate].
+    apply list_eqb_eq in Hp. subst nm. split; [exact Hg|].
+    intros k Hk Hn. specialize (Hb k (Some name) Hk Hn). cbn in Hb.
+    assert (list_eqb name name = true) by (apply list_eqb_eq; reflexivity). congruence.
+  - intros Hin. specialize (H (Some name) Hin). cbn in H.
+    assert (list_eqb name name = true) by (apply list_eqb_eq; reflexivity). congruence.
+Qed.
+Print Assumptions search_group_by_name_spec.
